@@ -8,8 +8,13 @@
 #![allow(static_mut_refs)]
 
 pub mod sched {
-    pub static mut HOOK: Option<fn()> = None;
+    /// scheduling enabled?  (the hook itself is stubbed in by the harness crate
+    /// - a function pointer would make the model checker consider every `fn()` in the program)
+    pub static mut ENABLED: bool = false;
     pub static mut IN_HOOK: bool = false;
+    /// Replaced by the harness crate's scheduler through `#[kani::stub(loom::sched::hook, ...)]`.
+    #[inline(never)]
+    pub fn hook() {}
     /// number of atomic read-modify-write operations executed (ghost counter)
     pub static mut RMW: usize = 0;
     pub static mut YIELDS: usize = 0;
@@ -20,12 +25,10 @@ pub mod sched {
     pub fn yield_point() {
         unsafe {
             YIELDS += 1;
-            if !IN_HOOK {
-                if let Some(h) = HOOK {
-                    IN_HOOK = true;
-                    h();
-                    IN_HOOK = false;
-                }
+            if ENABLED && !IN_HOOK {
+                IN_HOOK = true;
+                hook();
+                IN_HOOK = false;
             }
         }
     }
